@@ -49,7 +49,7 @@ RTYPES: list[Any] = [RT0, RT1, RT2, RT3, __import__("typing").List[RT0]]
 
 
 def gen_tree(rng: Any, *, max_depth: int = 4, max_fanout: int = 4, max_nodes: int = 14, wait_heavy: bool = False,
-             with_services: bool = True, p_remap: float = 0.15, root_fan: int | None = None) -> dict[str, Any]:
+             with_services: bool = True, p_remap: float = 0.15, root_fan: int | None = None, chain: bool = False) -> dict[str, Any]:
     """returns {"nodes": {path: node}, "root": "", "resources": {rid: {...}}, "order": [...]}"""
     nodes: dict[str, dict[str, Any]] = {}
     counter = [0]
@@ -68,6 +68,8 @@ def gen_tree(rng: Any, *, max_depth: int = 4, max_fanout: int = 4, max_nodes: in
         counter[0] += 1
         if depth < max_depth:
             fan = rng.choice([0, 0, 1, 2, 2, 3, min(max_fanout, 4)]) if depth > 0 else (root_fan or rng.choice([1, 2, 3, max_fanout]))
+            if chain:
+                fan = 1  # a chain: every component but the last has exactly one child
             for i in range(fan):
                 if counter[0] >= max_nodes:
                     break
